@@ -11,11 +11,13 @@ func factsRaftGlue() {
 	run, fd := bodyText("storage/raft/group.go", "RaftGroup", "run")
 	if fd == nil {
 		unrec("ready_loop_order", "list string", "run not found")
+		unrec("save_every_ready", "bool", "run not found")
 	} else {
 		i := strings.Index(run, "case rd := <-this.raft.Ready():")
 		j := strings.Index(run, "case <-this.ctx.Done():")
 		if i < 0 || j < i {
 			unrec("ready_loop_order", "list string", "Ready case not found")
+			unrec("save_every_ready", "bool", "Ready case not found")
 		} else {
 			body := run[i:j]
 			marks := map[string]string{
@@ -49,6 +51,8 @@ func factsRaftGlue() {
 				}
 				known("ready_loop_order", "list string", "["+strings.Join(names, "; ")+"]", "order of the steps of one Ready iteration in RaftGroup.run")
 			}
+			known("save_every_ready", "bool", b(strings.Contains(body, "if this.isLeader() { this.transport.Send(this.ctx, this, rd.Messages) } if err := this.wal.Save(rd.HardState, rd.Entries, rd.Snapshot); err != nil { this.log.Fatal(err) } if !etcdRaft.IsEmptySnap(rd.Snapshot) {")),
+				"every Ready is handed to wal.Save unconditionally (also one that only advances the commit index), right after the leader's early send")
 			known("apply_advances_applied_index", "bool", b(strings.Contains(body, "lastAppliedIdx = entry.Index") &&
 				strings.Contains(body, "if len(entry.Data) > 0 { if err := this.processFn(entry.Data); err != nil { this.log.Fatal(err) } }")),
 				"every committed entry advances lastAppliedIdx; normal entries with data go to processFn")
